@@ -65,9 +65,17 @@ theorem add_val_val_is_model (B : Nat) (m : Mode) (c : Coarse) (dub : Int → Na
   simp only [context_max_eq, assert_finite_operands, Repr_is_infinite, Repr_is_zero, Model.Float.FRepr.isZero, is_zero_int,
     eq_int, ne_int, cmp_int, int_mul_sign, sign_mul_int_eq, FBig_new, add_int, sub_int]
   gcases h1 : ls = 0 <;> gcases h2 : le = 0 <;> gcases h3 : rs = 0 <;> gcases h4 : re = 0
-  all_goals (try simp only [apply_eq, toG, Int.mul_comm, Int.zero_mul, Int.mul_zero])
+  all_goals (try simp only [apply_eq, toG, Int.mul_comm, Int.zero_mul, Int.mul_zero, repr_round_is_model,
+    repr_round_ref_is_model, value_toGA])
   all_goals (try simp only [if_true])
-  all_goals (first | fin_val_val re | fin_val_val (0 : Int))
+  all_goals (try (first | fin_val_val re | fin_val_val (0 : Int)))
+  -- zero-operand arms (fix 164990d): `context.repr_round(other).value()`; the other operand is finite here
+  all_goals (try (
+    have hc : ¬ (rs * rsI sg = 0 ∧ re ≠ 0) := by
+      rintro ⟨h0, _⟩
+      rcases rsI_cases sg with h | h <;> rw [h] at h0 <;> omega
+    simp only [hc, if_false, value_toGA, toG]))
+  all_goals (try simp only [h1, ne_eq, not_true_eq_false, and_false, false_and, if_false, value_toGA, toG])
 
 
 -- `add_ref_val`: the consumed right operand is the buffer the sum is built in, so the two alignment routines are called
@@ -96,9 +104,17 @@ theorem add_ref_val_is_model (B : Nat) (m : Mode) (c : Coarse) (dub : Int → Na
   simp only [context_max_eq, assert_finite_operands, Repr_is_infinite, Repr_is_zero, Model.Float.FRepr.isZero, is_zero_int,
     eq_int, ne_int, cmp_int, int_mul_sign, sign_mul_int_eq, FBig_new, add_int, sub_int]
   gcases h1 : ls = 0 <;> gcases h2 : le = 0 <;> gcases h3 : rs = 0 <;> gcases h4 : re = 0
-  all_goals (try simp only [apply_eq, toG, Int.mul_comm, Int.zero_mul, Int.mul_zero])
+  all_goals (try simp only [apply_eq, toG, Int.mul_comm, Int.zero_mul, Int.mul_zero, repr_round_is_model,
+    repr_round_ref_is_model, value_toGA])
   all_goals (try simp only [if_true])
-  all_goals (first | fin_ref_val re | fin_ref_val (0 : Int))
+  all_goals (try (first | fin_ref_val re | fin_ref_val (0 : Int)))
+  -- zero-operand arms (fix 164990d): `context.repr_round(other).value()`; the other operand is finite here
+  all_goals (try (
+    have hc : ¬ (rs * rsI sg = 0 ∧ re ≠ 0) := by
+      rintro ⟨h0, _⟩
+      rcases rsI_cases sg with h | h <;> rw [h] at h0 <;> omega
+    simp only [hc, if_false, value_toGA, toG]))
+  all_goals (try simp only [h1, ne_eq, not_true_eq_false, and_false, false_and, if_false, value_toGA, toG])
 
 /-- **C15 for `FBig + FBig` and `FBig − FBig`: the four hand-written variants agree** (value, precision, panic), for every
     base, rounding mode, coarse test and every digit estimate that does not depend on the sign of its argument -/
